@@ -152,16 +152,31 @@ impl ScalarCfg {
     }
 }
 
+thread_local! {
+    static GLOBAL_SEM_CACHE: std::cell::RefCell<BTreeMap<String, Rc<Sem>>> = const { std::cell::RefCell::new(BTreeMap::new()) };
+    static INHABITANTS_CACHE: std::cell::RefCell<BTreeMap<String, Vec<Val>>> = const { std::cell::RefCell::new(BTreeMap::new()) };
+}
+
 /// evaluate a TS type expression in the global scope (no user declarations)
 pub fn global_sem(ts: &str) -> Rc<Sem> {
+    if let Some(s) = GLOBAL_SEM_CACHE.with(|c| c.borrow().get(ts).cloned()) {
+        return s;
+    }
     let ty = tsmini::parse_type(ts).unwrap_or_else(|e| panic!("harness: scalar TS type {ts:?} does not parse: {e:?}"));
     let scope = tsmini::build_scope("<global>", &[]);
-    tsmini::eval(&ty, &Env::root(scope), 0).unwrap_or_else(|e| panic!("harness: scalar TS type {ts:?} not evaluable: {e:?}"))
+    let s = tsmini::eval(&ty, &Env::root(scope), 0).unwrap_or_else(|e| panic!("harness: scalar TS type {ts:?} not evaluable: {e:?}"));
+    GLOBAL_SEM_CACHE.with(|c| c.borrow_mut().insert(ts.to_string(), s.clone()));
+    s
 }
 
 pub fn sem_inhabitants(ts: &str) -> Vec<Val> {
+    if let Some(v) = INHABITANTS_CACHE.with(|c| c.borrow().get(ts).cloned()) {
+        return v;
+    }
     let mut budget = 16;
-    tsmini::inhabitants(&global_sem(ts), &mut budget, 0).unwrap_or_default()
+    let v = tsmini::inhabitants(&global_sem(ts), &mut budget, 0).unwrap_or_default();
+    INHABITANTS_CACHE.with(|c| c.borrow_mut().insert(ts.to_string(), v.clone()));
+    v
 }
 
 // ---------------------------------------------------------------------------
